@@ -58,6 +58,6 @@ affects them too (C03-a and C11-b are the same edit and trip both C03 and C11).
 '''
 s = open(os.path.join(VERIF, 'DESIGN.md')).read()
 a = s.index('### 13.6 Seeded breaking changes')
-b = s.index('### 13.5 Self-tests (as run in this sandbox)')
+b = s.index('### 13.7 Benign-change probe')
 open(os.path.join(VERIF, 'DESIGN.md'), 'w').write(s[:a] + text + s[b:])
 print(len(rows), first, late, other)
